@@ -586,7 +586,14 @@ def rule_li(ctx):
         rep.ob('I', 'core.ParMapDataset._with_key_map_function::returns(key,func(example))', ok, fn, '')
 
 
+def rule_cs(ctx):
+    """key iteration of the prefetch / parallel stages can succeed: no call of an own capability that only raises"""
+    n = K.self_capability_stubs(ctx, 'CS', only=('PrefetchDataset', 'ParMapDataset', 'MapDataset'))
+    ctx.report.floor('own-capability calls in the parallel stages', n, 1)
+
+
 def run(ctx):
+    rule_cs(ctx)
     rule_q(ctx)
     rule_b(ctx)
     rule_s(ctx)
